@@ -108,3 +108,25 @@ package compile
 //@   ensures forall(k, 1, rb_len(ranges), !rb_gt(ranges, rb_start(ranges, k-1), rb_start(ranges, k)) && rb_lt(ranges, rb_end(ranges, k-1), rb_start(ranges, k)))
 //@   loop 0 invariant 1 <= i && forall(k, 0, i, !rb_lt(ranges, rb_end(ranges, k), rb_start(ranges, k)))
 //@   loop 0 invariant forall(k, 1, i, !rb_gt(ranges, rb_start(ranges, k-1), rb_start(ranges, k)) && rb_lt(ranges, rb_end(ranges, k-1), rb_start(ranges, k)))
+
+// ---------------------------------------------------------------------------
+// Embedded XPath (C15). Prefixes inside a must/when/path expression are resolved by the statement that
+// carries the expression itself (whose tree of definition survives copying by uses/augment).
+//@ func (*Compiler).BuildMusts$1
+//@   modifies *
+//@   ensures result0 == node_pfx_ns(old(*must), prefix) && result1 == node_pfx_err(old(*must), prefix)
+//@ func (*Compiler).BuildWhens$1
+//@   modifies *
+//@   ensures result0 == node_pfx_ns(old(*when), prefix) && result1 == node_pfx_err(old(*when), prefix)
+//@ func (*Compiler).getPath$1
+//@   modifies *
+//@   ensures result0 == node_pfx_ns(old(*node), prefix) && result1 == node_pfx_err(old(*node), prefix)
+
+// A leafref path is compiled when the type is built; a syntax error (or a missing path) ends compilation
+// through c.error (which never returns), so a machine is always returned.
+//@ func (*Compiler).getPath
+//@   requires c != nil && node != nil
+//@   modifies *
+//@   ensures result != nil || base != nil
+//@   ensures implies(base == nil, node_path(node) != "")
+//@   ensures implies(base != nil, node_path(node) == "")
